@@ -1,12 +1,16 @@
 //! Types that specify what is contained in a ZIP.
 use std::path;
 
+#[cfg(not(zip_rs_zip_verif_loom))]
 #[cfg(not(any(
     all(target_arch = "arm", target_pointer_width = "32"),
     target_arch = "mips",
     target_arch = "powerpc"
 )))]
 use std::sync::atomic;
+// Verification hook (cfg `zip_rs_zip_verif_loom` only): the model checker's atomics.
+#[cfg(zip_rs_zip_verif_loom)]
+use loom::sync::atomic;
 #[cfg(not(feature = "time"))]
 use std::time::SystemTime;
 #[cfg(doc)]
@@ -294,8 +298,16 @@ impl AtomicU64 {
         self.0.store(val, atomic::Ordering::Relaxed)
     }
 
+    #[cfg(not(zip_rs_zip_verif_loom))]
     pub fn get_mut(&mut self) -> &mut u64 {
         self.0.get_mut()
+    }
+
+    /// Verification hook: loom's atomics have no `get_mut`; only the writer needs it and the
+    /// writer is not exercised in loom builds.
+    #[cfg(zip_rs_zip_verif_loom)]
+    pub fn get_mut(&mut self) -> &mut u64 {
+        unimplemented!("ZipWriter is not available in the loom verification build")
     }
 }
 
